@@ -17,7 +17,37 @@ import sys
 sys.path.insert(0, os.path.dirname(os.path.abspath(__file__)))
 import schema_introspect as SI  # noqa: E402
 
-B, INDEX, IDS = SI.class_index()
+LAZY = os.environ.get("VERIF_LAZY") == "1"
+if LAZY:
+    # import-order dimension: nothing of the package is imported up front; a class's module is
+    # imported when a case first names it (the case carries module and class name)
+    src = os.environ.get("VERIF_SRC")
+    if src:
+        sys.path.insert(0, src)
+    import importlib
+    import logging as _logging
+
+    _logging.disable(_logging.CRITICAL)
+    from chuk_mcp.protocol import mcp_pydantic_base as B  # noqa: E402
+
+    class _LazyIndex(dict):
+        where = {}
+
+        def get(self, k, default=None):
+            if k not in self and k in self.where:
+                m, n = self.where[k]
+                self[k] = getattr(importlib.import_module(m), n)
+            return dict.get(self, k, default)
+
+        def __getitem__(self, k):
+            v = self.get(k)
+            if v is None:
+                raise KeyError(k)
+            return v
+
+    INDEX, IDS = _LazyIndex(), {}
+else:
+    B, INDEX, IDS = SI.class_index()
 BACKEND = "pydantic" if B.PYDANTIC_AVAILABLE else "fallback"
 
 
@@ -59,6 +89,76 @@ def _first_field(o):
     return set(names[:1])
 
 
+def _scribble(v, depth=0):
+    """edit a dumped value IN PLACE the way a consumer / middleware does (add `_meta`-like members,
+    append items): every nested container is touched"""
+    if isinstance(v, dict):
+        for x in list(v.values()):
+            _scribble(x, depth + 1)
+        v["verif_added_by_consumer"] = {"progressToken": depth}
+        if "_meta" in v and isinstance(v["_meta"], dict):
+            v["_meta"]["progressToken"] = "scribbled"
+    elif isinstance(v, list):
+        for x in v:
+            _scribble(x, depth + 1)
+        v.append("verif_appended_by_consumer")
+
+
+def _scribble_instance(o, seen=None):
+    """edit the VALUES an instance holds in place (containers and nested instances reachable from it):
+    what a user of the typed object may do with one instance must not leak into another"""
+    seen = seen if seen is not None else set()
+    if id(o) in seen:
+        return
+    seen.add(id(o))
+    if isinstance(o, B.McpPydanticBase):
+        for k, v in list(SI.instance_items(o, B)):
+            if isinstance(v, bool):
+                try:
+                    object.__setattr__(o, k, not v) if not B.PYDANTIC_AVAILABLE else o.__dict__.__setitem__(k, not v)
+                except Exception:  # noqa
+                    pass
+            else:
+                _scribble_instance(v, seen)
+    elif isinstance(o, dict):
+        for v in list(o.values()):
+            _scribble_instance(v, seen)
+        o["verif_added_to_instance"] = 1
+    elif isinstance(o, list):
+        for v in o:
+            _scribble_instance(v, seen)
+        o.append("verif_appended_to_instance")
+
+
+class _S(str):
+    """a caller's str subclass (marker types, enum.StrEnum members behave the same way)"""
+
+
+class _I(int):
+    pass
+
+
+def _subclassed(v, enums=False):
+    """the same value with every str / int leaf (and key) replaced by an instance of a SUBCLASS"""
+    import enum
+
+    if isinstance(v, bool) or v is None or isinstance(v, float):
+        return v
+    if isinstance(v, str):
+        if enums:
+            return enum.StrEnum("E", [("m", v)]).m if v != "" else _S(v)
+        return _S(v)
+    if isinstance(v, int):
+        if enums:
+            return enum.IntEnum("N", [("m", v)]).m
+        return _I(v)
+    if isinstance(v, list):
+        return [_subclassed(x, enums) for x in v]
+    if isinstance(v, dict):
+        return {k: _subclassed(x, enums) for k, x in v.items()}
+    return v
+
+
 def observe_instance(o, variants=False):
     out = {"ok": True, "type": type(o).__name__}
     try:
@@ -79,6 +179,10 @@ def observe_instance(o, variants=False):
             "json_plain": _try(lambda: json.loads(o.model_dump_json(exclude_none=True))),
             "mcp": _try(lambda: o.model_dump_mcp(by_alias=True, exclude_none=True)),
             "again": _try(lambda: o.model_dump(by_alias=True, exclude_none=True)),
+            # ALIASING: what was dumped is the caller's to edit; a later dump must not see the edits
+            "after_edit_of_dump": _try(lambda: (_scribble(o.model_dump(by_alias=True, exclude_none=True)),
+                                                 o.model_dump(by_alias=True, exclude_none=True))[1]),
+            "after_edit_of_plain_dump": _try(lambda: (_scribble(o.model_dump()), o.model_dump(by_alias=True, exclude_none=True))[1]),
             "info_include_first": _try(lambda: o.model_dump(include=_first_field(o), by_alias=True)),
             "info_exclude_first": _try(lambda: o.model_dump(exclude=_first_field(o), by_alias=True, exclude_none=True)),
             "info_exclude_dict": _try(lambda: o.model_dump(exclude={k: True for k in _first_field(o)}, exclude_none=True)),
@@ -109,6 +213,24 @@ def op_validate(case):
         out["second"] = canon(o2.model_dump(by_alias=True, exclude_none=True))
         o3 = cls.model_validate(o)
         out["from_instance"] = canon(o3.model_dump(by_alias=True, exclude_none=True))
+        # INDEPENDENCE: edit everything the first two instances hold, then validate the wire object anew
+        seen = set()  # one set for both: an object the two instances share is edited once
+        _scribble_instance(o, seen)
+        _scribble_instance(o2, seen)
+        o4 = cls.model_validate(copy.deepcopy(case["wire"]))
+        out["fresh_after_instances_edited"] = canon(o4.model_dump(by_alias=True, exclude_none=True))
+        # SUBCLASSES: the same object with every str / int value given as an instance of a str / int
+        # subclass (marker types), and as StrEnum / IntEnum members: same typed view
+        for nm, en in (("value_subclasses", False), ("enum_members", True)):
+            try:
+                o5 = cls.model_validate(_subclassed(copy.deepcopy(case["wire"]), en))
+                out[nm] = canon(json.loads(json.dumps(o5.model_dump(by_alias=True, exclude_none=True), default=str)))
+            except Exception as ex:  # noqa
+                out[nm] = {"$raised": type(ex).__name__}
+        # informational: value equality of typed objects (not named by the property)
+        other = cls.model_validate({**copy.deepcopy(case["wire"]), "verif_eq_probe": 1})
+        out.setdefault("variants", {})["info_eq_different_value"] = bool(o4 == other)
+        out["variants"]["info_eq_same_value"] = bool(o4 == cls.model_validate(copy.deepcopy(case["wire"])))
     except Exception as ex:  # noqa
         out["reuse_error"] = type(ex).__name__
     return out
@@ -345,6 +467,8 @@ def _instantiate(v):
             return INDEX[v["$model"]].model_validate(copy.deepcopy(v["wire"]))
         if "$tuple" in v:
             return tuple(_instantiate(x) for x in v["$tuple"])
+        if "$sub" in v:
+            return _subclassed(v["value"], enums=(v["$sub"] == "enum"))
         return {k: _instantiate(x) for k, x in v.items()}
     if isinstance(v, list):
         return [_instantiate(x) for x in v]
@@ -369,6 +493,7 @@ def op_construct(case):
             return {"ok": False, "exc": type(ex).__name__}
         if isinstance(r, B.McpPydanticBase):
             out = observe_instance(r, variants=True)
+            out["dump"] = canon(json.loads(json.dumps(r.model_dump(by_alias=True, exclude_none=True), default=str)))
             try:
                 again = type(r).model_validate(copy.deepcopy(r.model_dump(by_alias=True, exclude_none=True)))
                 out["roundtrip"] = canon(again.model_dump(by_alias=True, exclude_none=True))
@@ -402,6 +527,20 @@ def _roundtrip(cls, emitted):
         return {"dump": canon(o.model_dump(by_alias=True, exclude_none=True)), "tree": SI.type_tree(o, B)}
     except Exception as ex:  # noqa
         return {"raised": type(ex).__name__}
+
+
+class _BadStr(Exception):
+    def __str__(self):
+        raise RuntimeError("str() of this exception raises")
+
+
+def _exc_class(name):
+    import builtins
+
+    if name == "BadStr":
+        return _BadStr
+    c = getattr(builtins, name or "ValueError", ValueError)
+    return c if isinstance(c, type) and issubclass(c, BaseException) else ValueError
 
 
 def flow_content_kind(case):
@@ -451,13 +590,16 @@ def flow_registry(case):
         if k == "result":
             return T.ToolResult.model_validate(copy.deepcopy(ret["value"]))
         if k == "raise":
-            raise ValueError(ret["value"])
+            raise _exc_class(ret.get("exc"))(ret["value"])
         return copy.deepcopy(ret["value"])  # dict / str / other
 
     tool = T.Tool.model_validate({"name": "t", "inputSchema": {"type": "object"}})
     reg.register_tool(tool, handler)
     name = "missing" if ret["kind"] == "unknown" else "t"
-    r1 = asyncio.run(reg.call_tool(name, {"q": 1}))
+    try:
+        r1 = asyncio.run(reg.call_tool(name, {"q": 1}))
+    except Exception as ex:  # noqa
+        return {"propagated": type(ex).__name__}
     r2 = asyncio.run(reg.call_tool(name, {"q": 1}))  # REUSE: the registry and handler a second time
     emitted = T.tool_result_to_dict(r1)
     return {
@@ -475,11 +617,14 @@ def flow_elicit_client(case):
     async def user(message, schema, title):
         seen.append([message, schema, title])
         if case.get("raise") is not None:
-            raise RuntimeError(case["raise"])
+            raise _exc_class(case.get("exc", "RuntimeError"))(case["raise"])
         return copy.deepcopy(case["data"])
 
     client = E.ElicitationClient(user)
-    resp = asyncio.run(client.handle_elicitation_request(copy.deepcopy(case["message"])))
+    try:
+        resp = asyncio.run(client.handle_elicitation_request(copy.deepcopy(case["message"])))
+    except Exception as ex:  # noqa
+        return {"propagated": type(ex).__name__, "user_saw": canon(seen)}
     out = {"response": canon(resp), "user_saw": canon(seen)}
     out["envelope"] = _exc(lambda: parse_message(copy.deepcopy(resp)).model_dump(by_alias=True, exclude_none=True))
     if isinstance(resp, dict) and "result" in resp:
@@ -541,10 +686,107 @@ def flow_example_tool(case):
             "leaks": leaks(r, emitted)}
 
 
+def flow_roots_manager(case):
+    """RootsManager (two managers alive, same uris): add / re-add / rename / remove / clear, with the
+    list and the number of list_changed notifications after every step"""
+    import anyio
+    from chuk_mcp.protocol.messages.roots import send_messages as R
+
+    async def main():
+        sends, recvs, mgrs = [], [], []
+        for _ in range(2):
+            s_, r_ = anyio.create_memory_object_stream(1000)
+            sends.append(s_)
+            recvs.append(r_)
+            mgrs.append(R.RootsManager(s_))
+        trace = []
+        for op in case["ops"]:
+            m = mgrs[op.get("mgr", 0)]
+            k = op["op"]
+            res = None
+            try:
+                if k == "add":
+                    m.add_root(R.Root.model_validate(copy.deepcopy(op["root"])))
+                elif k == "add-same-object":
+                    roots = m.get_roots()
+                    if roots:
+                        m.add_root(roots[0])
+                elif k == "remove":
+                    m.remove_root(op["uri"])
+                elif k == "clear":
+                    m.clear()
+                elif k == "list":
+                    msg = await m.handle_list_request(op.get("id", 1))
+                    res = canon(msg.model_dump(by_alias=True, exclude_none=True))
+            except Exception as ex:  # noqa
+                res = {"raised": type(ex).__name__}
+            for _ in range(3):
+                await asyncio.sleep(0)
+            counts = [r_.statistics().current_buffer_used for r_ in recvs]
+            trace.append({"roots": [[canon(x.model_dump(by_alias=True, exclude_none=True)) for x in mm.get_roots()] for mm in mgrs],
+                          "notifications": counts, "result": res})
+        return trace
+
+    return {"trace": asyncio.run(main())}
+
+
+def flow_completion_provider(case):
+    from chuk_mcp.protocol.messages.completions import send_messages as C
+
+    prov = C.CompletionProvider()
+    n = case["n"]
+
+    async def h(name, value):
+        return [f"{value}{i}" for i in range(n)]
+
+    prov.register_resource_handler("file://", h)
+    prov.register_prompt_handler("p", h)
+    out = []
+    for ref in case["refs"]:
+        try:
+            r = asyncio.run(prov.handle_completion_request(copy.deepcopy(ref), copy.deepcopy(case["argument"])))
+            d = r.model_dump(by_alias=True, exclude_none=True)
+            out.append({"emitted": canon(d), "roundtrip": _roundtrip(C.CompletionResult, d)})
+        except Exception as ex:  # noqa
+            out.append({"raised": type(ex).__name__})
+    return {"results": out}
+
+
+def flow_registry_reentrant(case):
+    """a tool handler that calls back into the same registry (awaited directly), then returns / raises"""
+    from chuk_mcp.protocol.types import tools as T
+
+    reg = T.ToolRegistry()
+
+    async def inner(arguments):
+        if case.get("inner") == "raise":
+            raise KeyError("inner")
+        return copy.deepcopy(case.get("inner_value", {"v": 1}))
+
+    async def outer(arguments):
+        r = await reg.call_tool("inner", arguments)
+        if case.get("outer") == "raise":
+            raise RuntimeError("outer after inner")
+        if case.get("outer") == "pass":
+            return r
+        return {"inner": T.tool_result_to_dict(r)}
+
+    tool = T.Tool.model_validate({"name": "t", "inputSchema": {"type": "object"}})
+    reg.register_tool(tool, outer)
+    reg.register_tool(T.Tool.model_validate({"name": "inner", "inputSchema": {"type": "object"}}), inner)
+    r1 = asyncio.run(reg.call_tool("t", {}))
+    r2 = asyncio.run(reg.call_tool("inner", {}))
+    e1, e2 = T.tool_result_to_dict(r1), T.tool_result_to_dict(r2)
+    return {"emitted": canon(e1), "second": canon(e2), "roundtrip": _roundtrip(T.ToolResult, e1), "leaks": leaks(r1, e1)}
+
+
 FLOWS = {
     "content-kind": flow_content_kind, "tool-result": flow_tool_result, "registry": flow_registry,
     "elicit-client": flow_elicit_client, "elicit-route": flow_elicit_route, "embedded-bytes": flow_embedded_bytes,
     "example-tool": flow_example_tool,
+    "roots-manager": flow_roots_manager,
+    "completion-provider": flow_completion_provider,
+    "registry-reentrant": flow_registry_reentrant,
 }
 
 
@@ -610,11 +852,81 @@ def op_deep(case):
     return {"ok": True, "dump": canon(_plain(r)), "tree": SI.type_tree(r, B), "pytype": type(r).__name__}
 
 
+def op_setup(case):
+    """what a HOST application may legitimately do in the same process before using the library"""
+    import types
+    import typing
+
+    k = case["kind"]
+    if k == "host-aliases":
+        # a host module with typing aliases that happen to be named like model classes
+        m = types.ModuleType("verif_host_types")
+        for i, n in enumerate(case["names"]):
+            setattr(m, n, [typing.Union[int, str], typing.List[int], typing.Dict[str, int], typing.Optional[bool]][i % 4])
+        sys.modules["verif_host_types"] = m
+        return {"ok": True}
+    if k == "probe-classes":
+        # host models named like the library's, with the same attribute names, other types, other aliases
+        m = types.ModuleType("verif_host_models")
+        sys.modules["verif_host_models"] = m
+        made = 0
+        for c in case["classes"]:
+            ns = {"__annotations__": {}, "__module__": "verif_host_models"}
+            for j, a in enumerate(c["fields"]):
+                if not a.isidentifier() or a.startswith("_"):
+                    continue
+                ns["__annotations__"][a] = int
+                ns[a] = B.Field(default=j, alias=("h_" + a) if j % 2 else None)
+            cls = type(c["name"], (B.McpPydanticBase,), ns)
+            setattr(m, c["name"], cls)
+            o = cls.model_validate({("h_" + a if j % 2 else a): j + 1 for j, a in enumerate(ns["__annotations__"])})
+            o.model_dump(by_alias=True, exclude_none=True)
+            made += 1
+        return {"ok": True, "made": made}
+    if k == "env":
+        for kk, v in case["set"].items():
+            os.environ[kk] = v
+        return {"ok": True}
+    return {"ok": False, "exc": "no-such-setup"}
+
+
+def op_step(case):
+    """heterogeneous sequences: each step names its own operation"""
+    if LAZY and "where" in case:
+        INDEX.where[case["cls"]] = tuple(case["where"])
+    return OPS[case["op"]](case)
+
+
 def op_info(_case):
     return {"backend": BACKEND, "classes": len(INDEX)}
 
 
-OPS = {"validate": op_validate, "parse": op_parse, "helper": op_helper, "construct": op_construct, "flow": op_flow, "deep": op_deep, "info": op_info}
+OPS = {"validate": op_validate, "parse": op_parse, "helper": op_helper, "construct": op_construct, "flow": op_flow, "deep": op_deep, "setup": op_setup, "step": op_step, "info": op_info}
+
+
+def _debug_logging():
+    import logging
+
+    root = logging.getLogger()
+    prev_disable, prev_level, prev_handlers = root.manager.disable, root.level, list(root.handlers)
+    class _Formatting(logging.Handler):
+        """formats every record (as a real handler does) and drops the text: %-argument mismatches and
+        failing __repr__/__str__ of logged arguments surface exactly as they would in a host application"""
+
+        def emit(self, record):
+            self.format(record)
+
+    h = _Formatting()
+    h.setFormatter(logging.Formatter("%(asctime)s %(name)s %(levelname)s %(message)s"))
+    root.handlers[:] = [h]
+    root.setLevel(logging.DEBUG)
+    logging.disable(logging.NOTSET)
+
+    def restore():
+        logging.disable(prev_disable)
+        root.setLevel(prev_level)
+        root.handlers[:] = prev_handlers
+    return restore
 
 
 def main():
@@ -626,11 +938,18 @@ def main():
         req = json.loads(line)
         fn = OPS[req["op"]]
         res = []
-        for c in req["cases"]:
+        every = req.get("debug_every", 0)
+        for i, c in enumerate(req["cases"]):
+            # a share of the cases runs as under a host that configured logging at DEBUG (NullHandler):
+            # every logging.debug(...) / isEnabledFor(DEBUG) branch of the library is live there
+            restore = _debug_logging() if every and i % every == 0 else None
             try:
                 res.append(fn(c))
             except Exception as ex:  # noqa  (harness error, reported as such)
                 res.append({"ok": False, "exc": "worker:" + type(ex).__name__, "msg": str(ex)[:200]})
+            finally:
+                if restore:
+                    restore()
         out.write(json.dumps(res, ensure_ascii=True, allow_nan=True) + "\n")
         out.flush()
 
